@@ -1,6 +1,7 @@
 package main
 
 import (
+	"encoding/hex"
 	"fmt"
 	"os"
 	"path/filepath"
@@ -126,6 +127,15 @@ func runC14(args []string) {
 		g := &schema.Gen{R: rng, Cfg: schema.GenCfg{Comments: true, Attrs: true, Consts: true, MaxDefs: 8, MaxDepth: 3}}
 		trees = append(trees, tree{fmt.Sprintf("random-%d", i), write(fmt.Sprintf("x/random%d.bop", i), schema.Print(g.Random(), schema.Layouts[0])), true})
 	}
+	// malformed and unusual texts through ReadFile/Format, started COLD (no sequential phase first,
+	// so lazily initialised shared state is first touched by concurrent calls)
+	coldFrom := len(trees)
+	trees = append(trees, tree{"malformed-texts-cold", write("cold/root.bop", "struct Cold {\n    int32 a;\n}\n"), true})
+	var coldTexts []string
+	for _, t := range []string{"-x", "/p", "-ix", "-", "/", "-i", "-in", "\"abc", "'ab", "[opco", "[opcode(", "struct A { int32 }", "struct A { int32 a; ", "enum E { A = ; }", "message M { 1 -> }",
+		"union U { 1 -> struct A {} ", "const int32 x = 0x; ", "/* open", "// only a comment", "struct Ünï { int32 é; }", "import \"x", "readonly", "map[", "array[int32", "struct A{int32 a;}}", "\x00", "\xff\xfe", "1 -> 2", "=>", "<-"} {
+		coldTexts = append(coldTexts, hex.EncodeToString([]byte(t)))
+	}
 	procs := 3
 	G, R := 8, 20
 	if r.Thorough() {
@@ -140,6 +150,11 @@ func runC14(args []string) {
 		if ti >= smallFrom {
 			procs, G, R = 2, 4, 4
 		}
+		seq := 5
+		var texts []string
+		if ti == coldFrom {
+			procs, G, R, seq, texts = 4, 8, 3, 0, coldTexts
+		}
 		var settings []map[string]any
 		for _, o := range []Opts{{}, {Tags: true}, {Private: true, Pointers: true}, {Unsafe: true, Shared: true}, {Tags: true, Unsafe: true, Pointers: true}, {Private: true, Tags: true}} {
 			st := o.settings("pkg")
@@ -148,7 +163,11 @@ func runC14(args []string) {
 		}
 		perProc := []map[string]string{} // op -> hash|err
 		for p := 0; p < procs; p++ {
-			ch := &core.Child{Name: "feworker-race", Argv: []string{bin}, CPUBudget: 120 * time.Second,
+			// the budget is a bound on the whole stress operation (all goroutines' CPU under -race),
+			// so it scales with the number of calls; exceeding it says nothing about purity and is
+			// reported as inconclusive
+			budget := time.Duration(120+2*G*R) * time.Second
+			ch := &core.Child{Name: "feworker-race", Argv: []string{bin}, CPUBudget: budget,
 				Env: []string{"GORACE=halt_on_error=0 log_path=" + filepath.Join(logDir, fmt.Sprintf("%s-%d", tr.name, p))}}
 			var out struct {
 				Calls []struct {
@@ -165,9 +184,13 @@ func runC14(args []string) {
 				ReadErr  string            `json:"read_err"`
 				HarnessE string            `json:"harness_error"`
 			}
-			outcome, stderr := feOne(ch, map[string]any{"op": "purity", "path": tr.path, "settings_list": settings, "seq": 5, "g": G, "r": R}, &out)
+			outcome, stderr := feOne(ch, map[string]any{"op": "purity", "path": tr.path, "settings_list": settings, "seq": seq, "g": G, "r": R, "texts": texts}, &out)
 			ch.Close()
 			loc := map[string]string{"tree": tr.name}
+			if strings.HasPrefix(outcome, "cpu-budget") || strings.HasPrefix(outcome, "wall") {
+				r.Inconclusive(fmt.Sprintf("tree %s: stress operation stopped by the %s bound (G=%d R=%d)", tr.name, strings.SplitN(outcome, ":", 2)[0], G, R))
+				continue
+			}
 			if outcome != "post" {
 				r.Eval("")
 				r.Violate("worker died during repeated/concurrent calls", loc, map[string]any{"cause": outcome + ": " + core.FatalCause(stderr), "stderr_tail": tail(stderr, 2000)})
